@@ -36,7 +36,7 @@ def _tokenize():
 
 def _span_oracle(ctx, s, toks):
     """Direct oracle: spans ordered, disjoint, and delimiting the token text."""
-    tags = ["C15-empty-top-level-quote"] if re.search(r"``|\{\}|%%", s) else []
+    tags = []          # (an empty top-level quoted region used to leave a stale span behind: repaired in /repo, e7efd22)
     rp = {"kind": "tokens", "string": s, "tokens": [(t.token, t.kind.value if t.kind else None, t.source_start, t.source_end) for t in toks]}
     prev = -1
     for t in toks:
